@@ -31,7 +31,7 @@ ASSUMPTIONS = ['retry budgets read from the decorators: Local 5 tries, S3/B2 4 t
 S3_KINDS = ['connect', 'request-body', 'before-response', 'response-body', 'status500', 'status503', 'status429']
 B2_KINDS = S3_KINDS + ['status401-expired', 'status401-bad']
 OPS = ['exists', 'upload', 'upload_stream', 'download', 'download_stream', 'delete', 'list']
-LOCAL_PRIMS = ['mkdir', 'mktemp', 'write_bytes', 'open_w', 'copy', 'replace', 'read_bytes', 'open_r', 'unlink', 'scandir', 'exists']
+LOCAL_PRIMS = ['mkdir', 'mktemp', 'write_bytes', 'open_w', 'copy', 'replace', 'read_bytes', 'open_r', 'unlink', 'scandir', 'scandir_sub', 'exists']
 RUNS = [1, 2, 3, 4, 5, 99]
 
 
@@ -52,7 +52,7 @@ def cases(draw):
     if backend == 'local':
         applicable = {'exists': ['exists'], 'upload': ['mkdir', 'mktemp', 'write_bytes', 'replace', 'replace'],
                       'upload_stream': ['mkdir', 'mktemp', 'open_w', 'copy', 'copy', 'replace', 'replace'], 'download': ['read_bytes'],
-                      'download_stream': ['open_r', 'copy', 'copy'], 'delete': ['unlink'], 'list': ['scandir']}[op]
+                      'download_stream': ['open_r', 'copy', 'copy'], 'delete': ['unlink'], 'list': ['scandir', 'scandir_sub', 'scandir_sub']}[op]
         c['prim'] = draw(st.sampled_from(applicable + [draw(st.sampled_from(LOCAL_PRIMS))]))
     else:
         c['kind'] = draw(st.sampled_from(S3_KINDS if backend == 's3c' else B2_KINDS))
@@ -198,6 +198,22 @@ def _install_local():
         if _plan:
             _plan.check('scandir')
         return os.scandir(p)
+    osp.scandir = scandir
+
+    # scans of sub-directories happen in helpers (replicat.utils.fs today, possibly os.walk tomorrow): reach them through the os
+    # module itself. The adapter's own top-level scan above keeps calling the real function.
+    real_scandir = os.scandir
+
+    def global_scandir(p='.'):
+        if _plan:
+            _plan.check('scandir_sub')
+        return real_scandir(p)
+    os.scandir = global_scandir
+
+    def scandir(p='.'):        # noqa: F811 - the top-level scan, unaffected by the global wrapper
+        if _plan:
+            _plan.check('scandir')
+        return real_scandir(p)
     osp.scandir = scandir
     pathp = types.ModuleType('os_path_proxy')
     pathp.__dict__.update(os.path.__dict__)
